@@ -316,7 +316,7 @@ def run_lib(drvbin, b, env, base, img, pname, beh):
         probs.append(("crash", str(e)))
     finally:
         d.close()
-    if not probs:
+    if not probs and not beh.get("nofsck"):
         ok, msg = consistent(b, env, img)
         if not ok:
             probs.append(("inconsistent", msg))
@@ -442,9 +442,9 @@ def constants_for(pname, mc=None):
     return c
 
 
-def trace_cfg(work, pname):
-    path = os.path.join(work, "Trace_%s.cfg" % pname)
-    T.write_cfg(path, spec="TraceSpec", constants=constants_for(pname), invariants=["I_" + i for i in INVS],
+def trace_cfg(work, pname, over=None, suffix=""):
+    path = os.path.join(work, "Trace_%s%s.cfg" % (pname, suffix))
+    T.write_cfg(path, spec="TraceSpec", constants=constants_for(pname, over), invariants=["I_" + i for i in INVS],
                 postcondition="TraceAccepted")
     txt = open(path).read().replace("VLens = 0..70000", "VLens <- TraceVLens")     # an interval needs a definition override
     with open(path, "w") as f:
@@ -623,6 +623,53 @@ def validate(vd, ev, work, behs, results):
     return accepted
 
 
+def load_own_findings(vd):
+    """lib/evidence.py reads /verif/known_findings.txt; until this property's section is merged there, its lines live
+    in fixes/C15_known_findings.txt (same format)."""
+    p = os.path.join(VERIF, "fixes", "C15_known_findings.txt")
+    if os.path.exists(p):
+        for l in open(p):
+            l = l.strip()
+            if l.startswith("{"):
+                d = json.loads(l)
+                if d.get("property") == PID:
+                    vd.known.setdefault(d["key"], d)
+
+
+# Named deviation DevCowNoEaRef (known finding): copy-on-write of a SHARED xattr block whose entries name value inodes
+# does not take references on those inodes.  Random histories never share a block on ea_inode profiles; these fixed
+# histories take the deviation on purpose and are validated against the LITERAL model (DevCowNoEaRef = TRUE).
+COW_PROBES = [
+    dict(profile="i128ea", front="lib", persist=0, nofsck=1, ops=[["set", 1, 2000, 1], ["share"], ["set", 2, 4, 1]]),
+    dict(profile="i128ea", front="lib", persist=1, nofsck=1, ops=[["set", 1, 2000, 1], ["set", 2, 4, 1], ["share"], ["rm", 2]]),
+]
+
+
+def probe_cow(vd, ev, b, drvbin, env, work, bases):
+    mod = os.path.join(SPEC, "Trace_XattrPlace.tla")
+    res = execute(b, drvbin, env, work, COW_PROBES, bases)
+    n = 0
+    for beh, (lines, probs) in zip(COW_PROBES, res):
+        if probs:
+            vd.violation(probs[0][0], "%s (copy-on-write probe %s)" % (probs[0][1], beh["ops"]), {"behaviour": beh}); continue
+        tl = strip(lines)
+        rej, matched, inv, tail, _ = tracecheck.confirm(tl, mod, trace_cfg(work, beh["profile"]), work)
+        if not rej:
+            n += 1          # the code follows the repaired model: nothing to report
+            continue
+        lit = trace_cfg(work, beh["profile"], dict(DevCowNoEaRef="TRUE"), "lit")
+        rej2, matched2, inv2, tail2, _ = tracecheck.confirm(tl, mod, lit, work)
+        if rej2 and inv2 in ("I_EaRefs", "I_PeerIntact"):
+            n += 1          # every step is the literal model's step; only the property-level invariant fails
+            vd.violation("DevCowNoEaRef", "copy-on-write of a shared xattr block does not reference the value inodes it names (%s violated at step %s of %s)" % (
+                inv2[2:], matched2, [describe(beh, k) for k in range(len(beh["ops"]))]), {"behaviour": beh})
+        else:
+            k = matched if matched is not None else 0
+            vd.violation("rejected@cowprobe", "copy-on-write probe is neither the repaired nor the literal model's behaviour at step %d (%s)" % (k, describe(beh, k - 1)),
+                         {"behaviour": beh, "line": lines[k] if k < len(lines) else {}, "tlc_tail": tail[-1200:], "tlc_tail_literal": tail2[-1200:]})
+    return n
+
+
 def plan(tier, rng):
     behs = []
     if tier == "quick":
@@ -640,6 +687,7 @@ def plan(tier, rng):
 def run(tier):
     ev = Evidence(PID, tier, "model_checking")
     vd = Verdict(PID, ev)
+    load_own_findings(vd)
     work = fast_tmp()
     try:
         try:
@@ -667,6 +715,7 @@ def run(tier):
                 die_broken("instrumentation incomplete: %d lines for %d operations" % (len(lines), len(beh["ops"])))
         t2 = time.time()
         acc = validate(vd, ev, work, behs, results)
+        acc += probe_cow(vd, ev, b, drvbin, env, work, bases)
         ev.cov["validation_wall_s"] = round(time.time() - t2, 1)
         ev.cov["trace_lines_validated"] = nlines
         ev.cov["traces_validated_against_impl"] = acc
